@@ -71,6 +71,14 @@ template <typename T> struct DigestByValue { std::size_t operator()(T v) const {
 template <std::size_t S> struct Sized { char bytes[S]; };
 template <std::size_t S> struct SizedNT { char bytes[S]; SizedNT() {} SizedNT(const SizedNT & o) { bytes[0] = o.bytes[0]; } ~SizedNT() {} };
 
+// trivial destructor, but a move constructor of its own (a cursor into its own buffer): moving an AnyData has to run it
+struct SelfCursor {
+	char text[8]; const char * cursor;
+	SelfCursor() : text(), cursor(text) {}
+	SelfCursor(const SelfCursor & o) : cursor(text + (o.cursor - o.text)) { for(int i = 0; i < 8; ++i) text[i] = o.text[i]; }
+	SelfCursor(SelfCursor && o) noexcept : cursor(text + (o.cursor - o.text)) { for(int i = 0; i < 8; ++i) text[i] = o.text[i]; }
+};
+
 template <std::size_t N>
 void exerciseAnyDataSizes()
 {
@@ -91,6 +99,7 @@ void exerciseAnyData()
 	AD a(1); AD b(std::string("s")); AD c(Big{}); AD d(Mid24{}); AD e((MoveOnly()));
 	const std::string cs("x"); AD f(cs); int i = 0; AD g(i);
 	AD m(std::move(c)); AD m2(std::move(a));
+	AD sc((SelfCursor())); AD sc2(std::move(sc)); (void)sc2.template get<SelfCursor>();
 	(void)b.template get<std::string>(); (void)b.getAddress(); (void)b.template isType<std::string>(); (void)m.template isType<Big>();
 	const std::string & rs = b; (void)rs; const std::string * ps = b; (void)ps; (void)d; (void)e; (void)f; (void)g; (void)m2;
 }
